@@ -75,25 +75,27 @@ Definition set_min_align (st : est) (a : Z) : est :=
 (* ------------------------------------------------------------------ emit_front / emit_back *)
 (* front_pad: (uoffset_t)(B->emit_start - (flatcc_builder_ref_t)size) & (align - 1u) *)
 Definition front_pad (st : est) (size align : Z) : Z := Z.land (u32 (e_start st - size)) (align - 1).
-(* back_pad, CORRECTED behaviour (fixes/C02-end-padding-not-block-multiple.patch): the number of bytes that
-   brings emit_end up to the next multiple of align, (uoffset_t)(0 - B->emit_end) & (align - 1u).
-   The unchanged builder.c computes (uoffset_t)(B->emit_end) & (align - 1u), i.e. pads by emit_end mod align, which
-   reaches a multiple only when that remainder is 0 or align/2 (flatcc_builder.h: "the total size is zero padded to
-   fill a block multiple"). *)
-Definition back_pad (st : est) (align : Z) : Z := Z.land (u32 (0 - e_end st)) (align - 1).
+(* back_pad: (uoffset_t)(B->emit_end) & (align - 1u).  align_buffer_end emits that many zero bytes at the end, i.e.
+   emit_end mod align of them: the end reaches a multiple of align only when that remainder is 0 or align/2 (pinned by
+   /repo's emit_test; the property does not ask for a block multiple). *)
+Definition back_pad (st : est) (align : Z) : Z := Z.land (u32 (e_end st)) (align - 1).
+
+(* emit_front: the range is tested in 64 bits before the reference is computed (iov->len == 0,
+   iov->len > SOFFSET_MAX, emit_start - len < SOFFSET_MIN fail) *)
+Definition SOFFSET_MAX : Z := 2147483647.
+Definition SOFFSET_MIN : Z := -2147483648.
 
 Definition emit_front (st : est) (bytes : list Z) : option (Z * emit * est) :=
   let len := lenZ bytes in
-  let ref := s32 (e_start st - len) in
-  if ((16 <? len) && (U32_MAX <? len - 16)) || (e_start st <=? ref) then None
-  else Some (ref, {| em_off := ref; em_bytes := bytes |}, set_emit_front st ref bytes).
+  if (len =? 0) || (SOFFSET_MAX <? len) || (e_start st - len <? SOFFSET_MIN) then None
+  else let ref := e_start st - len in
+       Some (ref, {| em_off := ref; em_bytes := bytes |}, set_emit_front st ref bytes).
 
-(* returns ref + 1 *)
+(* emit_back: ref < 0 or len > SOFFSET_MAX - ref fail; returns ref + 1 *)
 Definition emit_back (st : est) (bytes : list Z) : option (Z * emit * est) :=
   let ref := e_end st in
-  let e := s32 (ref + lenZ bytes) in
-  if e <? ref then None
-  else Some (ref + 1, {| em_off := ref; em_bytes := bytes |}, set_emit_back st e bytes).
+  if (ref <? 0) || (SOFFSET_MAX - ref <? lenZ bytes) then None
+  else Some (ref + 1, {| em_off := ref; em_bytes := bytes |}, set_emit_back st (ref + lenZ bytes) bytes).
 
 (* ------------------------------------------------------------------ leaves *)
 Definition MAX_STRING_LEN : Z := 4294967295.        (* FLATBUFFERS_COUNT_MAX(1) *)
